@@ -291,4 +291,21 @@ CHECKS = {
              "checks": {"quick": 700, "thorough": 8000}, "shards": {"quick": 4, "thorough": 16}},
         ],
     },
+    "C19": {
+        "level_text": "Full (credential class x role x configuration) matrix with fresh random key material, real GetServerTLSConfig/GetClientTLSConfig and real crypto/tls handshakes over loopback; random cells with random material (RSA/ECDSA, TLS 1.2/1.3); the TLS-enabled TCP gRPC listener and the TLS mux receiver of a really assembled ClusterConnection; fail-closed construction for CA bundles without a CA certificate.",
+        "technique": "exhaustive cell matrix + random key material (rapid); handshake-outcome oracle predicted from (credential class, configuration)",
+        "level": "exploration",
+        "exhaustive_claim": True,
+        "assumptions": [
+            "trusted: Go's crypto/tls and crypto/x509; 'connection completed' = both handshakes returned nil and an application byte made the round trip",
+            "negative client classes are presented by a client that returns its certificate from GetClientCertificate unconditionally (Go's stock client withholds certificates the CA hint does not cover)",
+            "CA download over HTTPS is not exercised (no network); file CAs only",
+        ],
+        "parts": [
+            {"name": "matrix", "pkg": "encryption", "run": "^TestVF_C19_Matrix$", "rapid": False, "shards": {"quick": 4, "thorough": 8}},
+            {"name": "random", "pkg": "encryption", "run": "^TestVF_C19_Random$",
+             "checks": {"quick": 250, "thorough": 4000}, "shards": {"quick": 2, "thorough": 12}},
+            {"name": "wiring", "pkg": "proxy", "run": "^TestVF_C19_Wiring$", "rapid": False},
+        ],
+    },
 }
